@@ -349,6 +349,7 @@ func (r *runner) exec(line string) (cont bool) {
 			db.AllocSize = r.opts.asz
 		}
 		r.ps = db.Info().PageSize
+		fmt.Fprintf(r.w, "ps %d\n", r.ps) // the file's actual page size (a reopen may have asked for another one)
 		r.res("ok")
 		r.info("open")
 	case "close":
